@@ -25,6 +25,25 @@ def q(v):
     return Fr(v[1])
 
 
+# Server Command Reference, /s_new: add action 0 head, 1 tail, 2 before, 3 after, 4 replace; SuperCollider's Node.addActions
+SCR_ACTION = {'head': 0, 'tail': 1, 'before': 2, 'after': 3, 'replace': 4}
+
+
+def action_of(v):
+    """the add action number of any accepted spelling"""
+    if v is None:
+        return 0
+    if v[0] == 'S':
+        n = v[1]
+        if n.startswith('addTo'): n = n[5:].lower()
+        elif n.startswith('add'): n = n[3:].lower()
+        for word, num in SCR_ACTION.items():
+            if n == word or n == word[0]:
+                return num
+        return None
+    return int(Fr(v[1]))
+
+
 def is_rest(v):
     return v[0] == 'R'
 
@@ -252,16 +271,17 @@ def expected_score(case):
                 gated = bool(Fr(keys['send_gate'][1]))      # an explicit send_gate wins over the instrument's gate
             names = [c for c in ctl if c != 'gate' and (c == 'freq' or c in numeric)]
             params = [(c, freq if c == 'freq' else q(numeric[c])) for c in names]
+            head = [('#action', Fr(action_of(keys.get('add_action')))), ('#group', q(keys['group']) if 'group' in keys else Fr(1))]
             if '_mono' in e:
                 tag, i, _, n = e['_mono']
                 if i == 0:
                     mono_live[tag] = names
-                    out.append((t + lat, 's_new', instr, params))
+                    out.append((t + lat, 's_new', instr, head + params))
                 else:
                     out.append((t + lat, 'n_set', None,
                                 [(c, freq if c == 'freq' else q(numeric[c])) for c in mono_live.get(tag, names)]))
             else:
-                out.append((t + lat, 's_new', instr, params))
+                out.append((t + lat, 's_new', instr, head + params))
                 if gated:
                     out.append((t + lat + max(sustain, -lat) if lat + sustain < 0 else t + lat + sustain,
                                 'n_set', None, [('gate', Fr(0))]))
